@@ -284,6 +284,29 @@ func (e *c16env) applyViaListener(o c16op) (result string, err error) {
 }
 
 func (e *c16env) apply(o c16op) (result string, err error) {
+	if strings.HasSuffix(o.Kind, "-cancelled") {
+		// the same request under a context that is already cancelled (a client that gave up):
+		// whatever the service makes of it, memory and store must move together
+		base := strings.TrimSuffix(o.Kind, "-cancelled")
+		cctx, cancel := context.WithCancel(e.ctx)
+		cancel()
+		switch base {
+		case "add":
+			inc := atomic.AddInt64(&e.incN, 1)
+			err = e.s.AddMachine(cctx, "counter", o.Id, "start", match.Bindings{"inc": float64(inc), "n": 0.0, "self": o.Id})
+		case "rem":
+			err = e.s.RemMachine(cctx, o.Id)
+		default:
+			uid := fmt.Sprintf("u%d", atomic.AddInt64(&e.uidN, 1))
+			msg := map[string]interface{}{"uid": uid}
+			if base == "to" {
+				msg["to"] = o.Id
+			}
+			_, err = e.s.Process(cctx, msg, nil)
+		}
+		e.last = c16last{kind: "cancelled"}
+		return fmt.Sprintf("%s under a cancelled context: err=%v", base, err), err
+	}
 	if e.sess != nil {
 		return e.applyViaListener(o)
 	}
@@ -380,9 +403,12 @@ func genC16Seq(r *rand.Rand, n int) []c16op {
 		case k == 8:
 			seq = append(seq, c16op{"all", ""})
 		default:
-			if r.Intn(2) == 0 {
+			switch r.Intn(4) {
+			case 0, 1:
 				seq = append(seq, c16op{"poison", id})
-			} else {
+			case 2:
+				seq = append(seq, c16op{[]string{"to-cancelled", "all-cancelled", "add-cancelled", "rem-cancelled"}[r.Intn(4)], id})
+			default:
 				seq = append(seq, c16op{"get", ""})
 			}
 		}
@@ -536,6 +562,9 @@ func c16SequentialMid(cfg fw.Config, rec *fw.Rec, seqIdx int, seq []c16op, fi, f
 				return false
 			}
 			rec.Bucket("healthy_op_memory_equals_store")
+			if strings.HasSuffix(o.Kind, "-cancelled") {
+				rec.Bucket("request_under_cancelled_context_memory_equals_store")
+			}
 			if viaListener {
 				rec.Bucket("requests_over_the_line_protocol")
 			}
@@ -784,8 +813,8 @@ func c16Concurrent(cfg fw.Config, rec *fw.Rec, idx int, interleavings map[string
 
 func init() {
 	verifRegistry["C16/mcrew"] = func(cfg fw.Config, rec *fw.Rec) {
-		rec.Rule = "sequential (every second sequence as JSON request lines through Service.Listener, the per-connection loop of the TCP / WebSocket services; the others as direct Service calls): operation sequences of length 2-8 over {add, rem, process-to, process-all, read-crew, retry-the-previous-request-verbatim} on ids {m1,m2,m3}; for every 0 <= i < j <= n the bolt store is closed for operations i..j-1 (plus the fault-free run); after each operation with a healthy store memory must equal the store, an operation whose write failed must leave memory as it was, after recovery memory must equal the store; a 'poison' request to every machine leaves one machine with a state the store cannot serialise (100/0), so the request's write fails although the store is healthy: memory must stay as it was for every machine and equal the store; mid-operation faults: the hook counts an operation's store write calls and closes the database at the 1st/2nd/3rd call of that operation (the observed maximum of write calls per operation is reported); concurrent: 4-8 clients x 6-15 requests on 2-3 ids with every store write delayed 0-2 ms through the verifPoint hook: final memory == store, no two process results from one machine state, per-machine history linearizable (porcupine) w.r.t. a sequential service model; non-trivial = sequence run under a fault window / concurrent history; distinct by (sequence, window) / history"
-		rec.Required = []string{"healthy_op_memory_equals_store", "failed_write_left_memory_unchanged", "recovered_store_agrees", "concurrent_histories", "histories_linearizable_per_machine", "fault_windows", "requests_over_the_line_protocol", "unserialisable_state_left_memory_unchanged", "unserialisable_state_in_multi_machine_request", "mid_operation_fault_injected"}
+		rec.Rule = "sequential (every second sequence as JSON request lines through Service.Listener, the per-connection loop of the TCP / WebSocket services; the others as direct Service calls): operation sequences of length 2-8 over {add, rem, process-to, process-all, read-crew, retry-the-previous-request-verbatim, the same requests under an already cancelled context} on ids {m1,m2,m3}; for every 0 <= i < j <= n the bolt store is closed for operations i..j-1 (plus the fault-free run); after each operation with a healthy store memory must equal the store, an operation whose write failed must leave memory as it was, after recovery memory must equal the store; a 'poison' request to every machine leaves one machine with a state the store cannot serialise (100/0), so the request's write fails although the store is healthy: memory must stay as it was for every machine and equal the store; mid-operation faults: the hook counts an operation's store write calls and closes the database at the 1st/2nd/3rd call of that operation (the observed maximum of write calls per operation is reported); concurrent: 4-8 clients x 6-15 requests on 2-3 ids with every store write delayed 0-2 ms through the verifPoint hook: final memory == store, no two process results from one machine state, per-machine history linearizable (porcupine) w.r.t. a sequential service model; non-trivial = sequence run under a fault window / concurrent history; distinct by (sequence, window) / history"
+		rec.Required = []string{"healthy_op_memory_equals_store", "failed_write_left_memory_unchanged", "recovered_store_agrees", "concurrent_histories", "histories_linearizable_per_machine", "fault_windows", "requests_over_the_line_protocol", "request_under_cancelled_context_memory_equals_store", "unserialisable_state_left_memory_unchanged", "unserialisable_state_in_multi_machine_request", "mid_operation_fault_injected"}
 		rec.Assume = []string{"store faults are injected by closing the bolt database (every write and read fails until it is reopened); commits do not fsync (NoSync) because durability is not monitored", "machines are counters with a unique incarnation tag, so every state of every incarnation is distinguishable", "porcupine timeout 60 s = inconclusive"}
 		// sequential fault enumeration
 		nseq := cfg.Pick(40, 800)
@@ -804,6 +833,9 @@ func init() {
 			}
 			if i == 1 {
 				seq = []c16op{{"add", "m1"}, {"add", "m2"}, {"add", "m3"}, {"poison", "m2"}, {"all", ""}, {"poison", "m1"}, {"get", ""}}
+			}
+			if i == 2 {
+				seq = []c16op{{"add", "m1"}, {"to-cancelled", "m1"}, {"to", "m1"}, {"add-cancelled", "m2"}, {"all-cancelled", ""}, {"rem-cancelled", "m1"}, {"all", ""}}
 				n = len(seq)
 			}
 			jobs = append(jobs, job{i, seq, 0, 0})
